@@ -6,6 +6,7 @@
 (* from the recorded findings).                                                             *)
 C_WapTop == "/wap"
 C_EmptyPlusFieldRaises == FALSE
+C_GluedAcceptUnrecognised == TRUE      \* as coded on /repo HEAD (recorded finding C02-wap-accept-glued); FALSE once repaired
 C_Shipped == <<"WAPProtocol", "GeminiProtocol", "HTTPProtocol", "HTTPSProtocol", "SpartanProtocol",
                "GopherPlusProtocol", "SecureGopherPlusProtocol", "GopherProtocol", "SecureGopherProtocol">>
 \* protocol lists the models quantify over; C_Lists[1] is the shipped list
@@ -23,7 +24,7 @@ C_TermsA == {"\r\n", "\n", ""}
 C_HdrsA == {<<>>}
 \* family B: method sep path sep version terminator x header blocks; a sequence of parameter bundles
 C_FamB == << [M |-> {"GET", "HEAD", "x"}, S |-> {" ", "\t"}, P |-> {"/wap", "/wap/x", "/wapx", "/wap?x", "/x", "x/wap", ""},
-              V |-> {"HTTP/1.0", "xHTTP/", "0"}, T |-> {"\r\n", "\n"}, HK |-> {"AW", "XP"}, HN |-> 1] >>
+              V |-> {"HTTP/1.0", "xHTTP/", "0"}, T |-> {"\r\n", "\n"}, HK |-> {"AW", "AG", "XP"}, HN |-> 2] >>
 \* family C: selector followed by 1..C_CN TAB-separated fields
 C_CSel == {"", "x"}
 C_CFields == {"", "+", "!", "$", "+x", "!x", "x", " "}
